@@ -83,13 +83,13 @@ def _weights(cfg):
         w = {
             "new_coords": 4, "new_shell": 2, "ctor": 1, "new_container": 2, "write_file": 14, "parse": 16,
             "make_contr": 18, "new_mole": 5, "from_pyscf": 8, "new_iodata": 1, "from_iodata": 1, "update": 3, "scribble": 2,
-            "query": 10,
+            "query": 10, "new_instance": 0, "inst_call": 0,
         }
     else:
         w = {
             "new_coords": 6, "new_shell": 8, "ctor": 3, "new_container": 6, "write_file": 3, "parse": 3,
             "make_contr": 5, "new_mole": 2, "from_pyscf": 2, "new_iodata": 2, "from_iodata": 3, "update": 9, "scribble": 4,
-            "query": 52,
+            "query": 52, "new_instance": 2, "inst_call": 5,
         }
     f = cfg.get("focus")
     if f == "import":
@@ -103,7 +103,8 @@ def _weights(cfg):
 def _scenario(rng, cfg, profile):
     """Scripted multi-step openings (random fill follows): the sequences that expose things remembered
     across calls - import, update in place, import again; ask, update, ask again; ..."""
-    names = ["import_update_reimport", "ask_update_ask", "screening", "iodata_twice", "overwrite_reparse"]
+    names = ["import_update_reimport", "ask_update_ask", "screening", "iodata_twice", "overwrite_reparse",
+             "retained_instance"]
     if profile == "C18":
         names = ["import_update_reimport", "overwrite_reparse", "import_update_reimport", "pyscf_twice"]
     name = rng.choice(names)
@@ -173,6 +174,16 @@ def _scenario(rng, cfg, profile):
         ops.append(g_write_file(rng, cfg, new=False))
         ops.append(g_parse(rng, quiet, keep=rng.random() < 0.5))
         ops.append(g_make_contr(rng, quiet, keep=False))
+    elif name == "retained_instance":
+        for _ in range(rng.randint(1, 2)):
+            ops.append(g_new_shell(rng, cfg))
+        ops.append(g_new_container(rng, cfg))
+        ops.append(g_new_instance(rng, cfg))
+        q = g_inst_call(rng, quiet)
+        ops.append(q)
+        for _ in range(rng.randint(1, 2)):
+            ops.append(g_update(rng, quiet))
+            ops.append(dict(q))
     elif name == "pyscf_twice":
         ops.append(g_new_mole(rng, cfg))
         ops.append(g_from_pyscf(rng, quiet, keep=rng.random() < 0.5))
@@ -210,7 +221,8 @@ def gen_history(seed, profile):
         # "the same question again after the world changed": re-issue an earlier query right after a
         # parameter update / file overwrite (what exposes caches keyed by identity or path)
         if kind in ("update", "write_file") and rng.random() < cfg["p_reissue"]:
-            earlier = [o for o in ops[:-1] if o["op"] in ("query", "parse", "make_contr", "from_pyscf", "from_iodata")
+            earlier = [o for o in ops[:-1] if o["op"] in ("query", "parse", "make_contr", "from_pyscf", "from_iodata",
+                                                          "inst_call")
                        and not o.get("keep")]
             if earlier:
                 q = dict(earlier[-1 - rng.randrange(min(3, len(earlier)))])
@@ -432,7 +444,8 @@ def g_new_mole(rng, cfg):
     n = rng.randint(1, 4)
     atoms = [[rng.choice(syms), _xyz(rng, cfg["coord_scale"])] for _ in range(n)]
     return {"op": "new_mole", "cart": rng.random() < 0.5, "atoms": atoms, "basis": basis,
-            "coord_form": rng.choice(["list", "list", "tuple", "array"])}
+            "coord_form": rng.choice(["list", "list", "tuple", "array"]),
+            "row_form": rng.choice(["list", "list", "list", "tuple"])}
 
 
 def g_from_pyscf(rng, cfg, keep=None):
@@ -488,6 +501,18 @@ def g_from_iodata(rng, cfg, keep=None):
         op["env"] = g_env(rng, cfg)
         op["fault"] = g_fault(rng, cfg)
         op["invalid"] = g_invalid(rng, cfg)
+    return op
+
+
+def g_new_instance(rng, cfg):
+    return {"op": "new_instance", "cls": rng.randrange(D), "d": rng.randrange(D)}
+
+
+def g_inst_call(rng, cfg):
+    op = g_query(rng, cfg, fn="cls_array")
+    op["op"] = "inst_call"
+    op["id"] = rng.randrange(D)
+    op["keep"] = None
     return op
 
 
@@ -598,6 +623,8 @@ GEN = {
     "from_pyscf": g_from_pyscf,
     "new_iodata": g_new_iodata,
     "from_iodata": g_from_iodata,
+    "new_instance": g_new_instance,
+    "inst_call": g_inst_call,
     "update": g_update,
     "scribble": g_scribble,
     "query": g_query,
